@@ -693,6 +693,62 @@ func (g *c01Gen) ltNotShape(budget int) *c01E {
 	return g.leaf()
 }
 
+// deMorganShape: `!` over a chain of two to four operands of `&&` / `||` (left- or right-nested) whose operands are
+// variables, calls, negations, equality tests, and expressions between `||` and unary precedence (a+1, p<q, p|q):
+// the De Morgan rewrite of optimizeUnaryExpr with its size score and its grouping decisions
+func (g *c01Gen) deMorganShape() *c01E {
+	r := g.r
+	operand := func() *c01E {
+		v := func() *c01E { return c01V(r.Pick(c01Vars)) }
+		switch r.Intn(9) {
+		case 0, 1:
+			return v()
+		case 2:
+			return c01B(r.Pick([]string{"==", "!=", "===", "!=="}), v(), g.leaf())
+		case 3:
+			return c01B(r.Pick([]string{"+", "-", "*", "<", ">=", "|", "&", "^", "<<"}), v(), g.leaf())
+		case 4:
+			return c01U("!", v())
+		case 5:
+			return c01L(c01V(r.Pick(c01Funs)), c01N(r.Intn(3)))
+		case 6:
+			return c01B("??", v(), v())
+		case 7:
+			return c01B("=", v(), g.leaf())
+		}
+		return g.leaf()
+	}
+	op := r.Pick([]string{"&&", "||"})
+	n := 2 + r.Intn(3)
+	e := operand()
+	for i := 1; i < n; i++ {
+		o := op
+		if r.Chance(12) {
+			o = map[string]string{"&&": "||", "||": "&&"}[op]
+		}
+		var ok bool
+		var ne *c01E
+		if r.Chance(80) {
+			ne, ok = c01Mk(o, []*c01E{e, operand()}, 0)
+		} else {
+			ne, ok = c01Mk(o, []*c01E{operand(), e}, 0)
+		}
+		if ok {
+			e = ne
+		}
+	}
+	out, ok := c01Mk("!", []*c01E{e}, 0)
+	if !ok {
+		return g.leaf()
+	}
+	if r.Chance(30) {
+		if w, ok := c01Mk(r.Pick([]string{"&&", "||", "+", "=="}), []*c01E{out, g.leaf()}, 0); ok {
+			return w
+		}
+	}
+	return out
+}
+
 // expr generates an expression with about `budget` operator nodes.
 func (g *c01Gen) expr(budget int) *c01E {
 	r := g.r
@@ -704,6 +760,9 @@ func (g *c01Gen) expr(budget int) *c01E {
 	}
 	if r.Intn(250) == 0 {
 		return g.ltNotShape(budget)
+	}
+	if r.Intn(40) == 0 {
+		return g.deMorganShape()
 	}
 	for try := 0; try < 20; try++ {
 		var f string
